@@ -254,13 +254,17 @@ def ob_mp(l1: int, ra: int, rb: int, x: int, y: int, z: int) -> bool:
     assume(1 <= l1 < 2 ** 20 and 0 <= ra < 65536 and 0 <= rb < 2 ** 32)
     o = octs([x, y, z]) + [1]
     routes, texts = b'', []
+    addpath = P.get('addpath', False)
     for i in range(n):
         plen = P['plens'][i]
         oo = [o[(j + i) % 4] for j in range(4)]
+        if addpath:
+            # RFC 7911: a 4-octet path identifier in front of every route (ra + i: symbolic, includes 0)
+            routes += E.u32(ra + i)
         if fam == 'ipv6':
             hx = list(V6.values())[i % len(V6)]
             routes += bytes([plen]) + bytes(_masked(list(bytes.fromhex(hx)), plen))
-            texts.append(_v6_text(hx, plen))
+            texts.append({'prefix': _v6_text(hx, plen), 'path_id': ra + i} if addpath else _v6_text(hx, plen))
         elif fam == 'lu4':
             lab = _label3(l1 + i) if reach else bytes([0x80, 0, 0])
             routes += bytes([24 + plen]) + lab + bytes(_masked(oo, plen))
@@ -291,7 +295,7 @@ def ob_mp(l1: int, ra: int, rb: int, x: int, y: int, z: int) -> bool:
         value = E.u16(afi) + bytes([safi]) + routes
         blob = E.attr(15, value, ext=P.get('ext', False))
     blob = E.origin(0) + blob + E.med(rb)
-    out = Update.parse(None, E.update_body(b'', blob, b''), True, {})
+    out = Update.parse(None, E.update_body(b'', blob, b''), True, {'ipv6': True} if addpath else {})
     cover('parsed')
     if out['sub_error'] is not None or set(out['attr'].keys()) != {1, 4, 14 if reach else 15}:
         return False
@@ -303,6 +307,14 @@ def ob_mp(l1: int, ra: int, rb: int, x: int, y: int, z: int) -> bool:
             return False
         return same(got['nlri'], texts)
     return same(got['withdraw'], texts)
+
+
+def ob_empty_update(x: int) -> bool:
+    """the UPDATE with nothing in it (RFC 4724 End-of-RIB marker for IPv4 unicast): a result without error and without routes"""
+    from yabgp.message.update import Update
+    out = Update.parse(None, E.update_body(b'', b'', b''), P['as4'], {'ipv4': True} if P['addpath'] else {})
+    cover('parsed')
+    return out['sub_error'] is None and out['withdraw'] == [] and out['nlri'] == [] and (out['attr'] or {}) == {}
 
 
 def obligations(tier, seed):
@@ -348,7 +360,7 @@ def obligations(tier, seed):
         for as4 in (False, True):
             out.append(ob('C09/malformed/aspath-segtype/as4=%s/first=%s' % (as4, first), 'ob_malformed',
                           {'kind': 'aspath-segtype', 'as4': as4, 'first': first}, covers=['parsed']))
-    for code, lens in ((3, (3, 5)), (4, (3, 5)), (5, (0, 3, 5)), (9, (3, 5)), (10, (3, 5)), (7, (5, 7)), (16, (7, 9)), (6, (1,))):
+    for code, lens in ((3, (3, 5)), (4, (3, 5)), (5, (0, 3, 5)), (9, (3, 5)), (10, (3, 5)), (7, (5, 7, 8)), (16, (7, 9)), (6, (1,))):
         for n in lens:
             out.append(ob('C09/malformed/fixed-length/code=%d/len=%d' % (code, n), 'ob_malformed',
                           {'kind': 'fixed-length', 'code': code, 'len': n}, covers=['parsed']))
@@ -366,9 +378,18 @@ def obligations(tier, seed):
                     out.append(ob('C09/mp/%s/%s/plens=%s/ext=%s' % (fam, d, '-'.join(map(str, plens)) or 'none', ext), 'ob_mp',
                                   {'family': fam, 'dir': d, 'n': len(plens), 'plens': plens, 'ext': ext}, covers=['parsed'],
                                   cap=150 if quick else 400))
+    for d in ('reach', 'unreach'):
+        for plens in ([64], [60, 128]):
+            out.append(ob('C09/mp/ipv6/%s/plens=%s/add-path' % (d, '-'.join(map(str, plens))), 'ob_mp',
+                          {'family': 'ipv6', 'dir': d, 'n': len(plens), 'plens': plens, 'addpath': True}, covers=['parsed'],
+                          cap=150 if quick else 400))
     for fam in ('vpnv6', 'evpn', 'flowspec'):
         for d in ('reach', 'unreach'):
             out.append(ob('C09/mp/%s/%s/plens=none' % (fam, d), 'ob_mp', {'family': fam, 'dir': d, 'n': 0, 'plens': []},
+                          covers=['parsed']))
+    for as4 in (False, True):
+        for ap in (False, True):
+            out.append(ob('C09/empty-update/as4=%s/addpath=%s' % (as4, ap), 'ob_empty_update', {'as4': as4, 'addpath': ap},
                           covers=['parsed']))
     out.append(ob('C09/session/update-vs-error', 'ob_session', {}, covers=['good', 'bad']))
     return out
